@@ -78,7 +78,7 @@ func c15End(w *run) {
 				t = end
 			}
 			if t.After(prev) {
-				for _, p := range app {
+				for pi, p := range app {
 					start := prev.Add(T)
 					if p.a.After(start) {
 						start = p.a
@@ -86,7 +86,16 @@ func c15End(w *run) {
 					bound := start.Add(To)
 					// keepalive applicable from start through bound, and the connection was still open after bound
 					if !start.Before(p.a) && !bound.After(p.b) && t.After(bound.Add(slack)) {
-						e.Violate("dead_peer_not_detected", "conn %d: nothing was received between %v and %v; keepalive (Time %v, Timeout %v) was applicable from %v, so the connection had to be closed by %v, but it was still open at %v", idx, prev.Sub(w.t0), t.Sub(w.t0), T, To, start.Sub(w.t0), bound.Sub(w.t0), t.Sub(w.t0))
+						// separate name when something was received while keepalive was
+						// not applicable (dormant) just before this period: see the
+						// known finding about stale activity after dormancy
+						name := "dead_peer_not_detected"
+						for _, x := range rx {
+							if x.Before(p.a) && (pi == 0 && x.After(v.prefaceAt) || pi > 0 && x.After(app[pi-1].b)) {
+								name = "dead_peer_detection_delayed_after_dormancy"
+							}
+						}
+						e.Violate(name, "conn %d: nothing was received between %v and %v; keepalive (Time %v, Timeout %v) was applicable from %v, so the connection had to be closed by %v, but it was still open at %v", idx, prev.Sub(w.t0), t.Sub(w.t0), T, To, start.Sub(w.t0), bound.Sub(w.t0), t.Sub(w.t0))
 						break
 					}
 					if !bound.After(p.b) && !t.Before(bound) {
@@ -149,7 +158,10 @@ func genC15wt(seed uint64, tier string) *Scenario {
 		eps = To / 2
 	}
 	p := &s.Peer
-	kind := r.Intn(4)
+	kind := r.Intn(5)
+	if kind == 4 {
+		return genC15Burst(seed, r, s, T, To, eps)
+	}
 	anchorStart := int64(r.Intn(3)) * int64(r.LogUniform(1, int(T)))
 	var srv []SOp
 	end := anchorStart + 3*(T+To)
@@ -216,6 +228,55 @@ func genC15wt(seed uint64, tier string) *Scenario {
 	}
 	s.EndNs = end
 	sortActions(s)
+	return s
+}
+
+// genC15Burst: streams opening out of dormancy, several at the same instant.
+// Without PermitWithoutStream the connection is first used by one short RPC,
+// then idle for longer than Time (the keepalive goroutine goes dormant), then
+// 2..8 RPCs start at one virtual instant and stay open against a peer that is
+// silent (or answers pings late / in time). Keepalive is applicable from that
+// instant, so a silent peer must be detected Timeout later.
+func genC15Burst(seed uint64, r *core.Rand, s *Scenario, T, To, eps int64) *Scenario {
+	sec := int64(1000000000)
+	c := &s.Client
+	c.KAPermit = false
+	p := &s.Peer
+	switch r.Intn(4) {
+	case 0, 1:
+		p.PingAck = "never"
+	case 2:
+		p.PingAck = "delay"
+		p.PingAckDelayNs = To + core.Pick(r, -eps, eps)
+	default:
+		p.PingAck = ""
+	}
+	s.RPCs = append(s.RPCs, RPC{ID: 1, StartNs: 0, WaitReady: true, DeadlineNs: 3600 * sec,
+		Client: []Op{{Op: "close_send"}, {Op: "recv_all"}}, Server: [][]SOp{{{Op: "trailers"}}}})
+	// dormant after Time without streams; one or two bursts
+	at := T + int64(core.Pick(r, sec, T/2, T, 3*T+eps))
+	end := at
+	id := uint32(1)
+	for b := r.Range(1, 2); b > 0; b-- {
+		n := r.Range(2, 8)
+		life := int64(core.Pick(r, To+T+10*sec, 2*(T+To), To/2+1))
+		for i := 0; i < n; i++ {
+			id++
+			rpc := RPC{ID: id, StartNs: at, WaitReady: true}
+			rpc.Client = []Op{{Op: "sleep", Ns: life}, {Op: "cancel"}, {Op: "recv_all"}}
+			if r.Chance(1, 3) {
+				rpc.Client = append([]Op{{Op: "send", N: r.Range(0, 100)}}, rpc.Client...)
+			}
+			rpc.Server = [][]SOp{{{Op: "hang"}}}
+			s.RPCs = append(s.RPCs, rpc)
+		}
+		end = at + life + T + To + 10*sec
+		at = end + T + int64(core.Pick(r, sec, T)) // dormant again before the next burst
+	}
+	for i := range s.RPCs {
+		s.RPCs[i].DeadlineNs = end + 7200*sec
+	}
+	s.EndNs = end
 	return s
 }
 
